@@ -9,6 +9,7 @@ import Alpen.Model.Queue
 import Alpen.Model.Task
 import Alpen.Model.Retry
 import Alpen.Model.WorldOps
+import Alpen.Model.Daemon
 import Alpen.Model.Import
 import Alpen.Model.Cli
 import Alpen.Model.Hsm
@@ -400,6 +401,14 @@ def stateful (s : St) (toks : List String) : Option (St × String) :=
       | some nd =>
         let dcs := (s.w.dcopiesOf n).map (fun d => { d with size := (sz.find? (fun p => p.1 == d.id)).map (·.2) })
         pure (s, encNats ((selectDelete nd.availKiB nd.minKiB (nd.stype == .A) (fun f => s.w.pendingSource f n) dcs).map (·.id)))
+  | ["w.q", "iterate", host, initd] => do
+      let ini ← decNats initd
+      let hv : HostView := ⟨← host.toNat?, fun n => ini.contains n⟩
+      let ops := iterateOps s.w hv
+      let cs := ops.filterMap (fun o => match o with | .check c _ => some c.id | _ => none)
+      let ds := ops.filterMap (fun o => match o with | .deleteOne c _ => some c.id | _ => none)
+      let rs := ops.filterMap (fun o => match o with | .decide r _ => some r.id | _ => none)
+      pure (s, s!"check:{encNats (sortNats cs)} delete:{encNats (sortNats ds)} decide:{encNats (sortNats rs)}")
   | ["w.q", "groupState", g, f] => do pure (s, (s.w.groupState (← g.toNat?) (← f.toNat?)).toString)
   | ["w.dump"] => some (s, worldDump s.w)
   | ["q.reset", keys] => do
